@@ -17,7 +17,7 @@ impl Worker {
                 cfg.exe.display()
             )));
         }
-        let base = simos::tracer::scratch_base().join(format!("w{k}"));
+        let base = simos::tracer::scratch_base().join(format!("w{k:02}"));
         let sb = Sandbox::new(&base, &cfg.exe)?;
         Ok(Worker {
             sb,
